@@ -12,8 +12,10 @@ typedef bool boolean_t;
 #include "os/linux/daemon/linux-main.h"
 
 /* the argument of pthread_create(lltdLoop) is embedded_interface_ctx_t*, whose first member is the network_interface_t */
-void w2_set_link(void *thread_arg, uint32_t ifType, uint32_t linkSpeedBps, uint32_t mediumType) {
+void w2_set_link(void *thread_arg, uint32_t ifType, uint32_t linkSpeedBps, uint32_t mediumType, int kind) {
     network_interface_t *iface = (network_interface_t *)thread_arg;
+    /* what kind of device the daemon's discovery code classified it as (bond, bridge, ethernet, 802.11, vlan); -1 = as the daemon set it */
+    if (kind >= 0) iface->interfaceType = kind;
     iface->ifType = ifType;
     iface->LinkSpeed = linkSpeedBps;
     iface->MediumType = mediumType;
